@@ -315,3 +315,26 @@ fn c10_scan_visits_each_message_once() {
     kani::cover!(true);
     std::mem::forget(reader);
 }
+
+/// A part that has only ECU entries (messages without extended header: no
+/// application / context ids) still contributes its ECU counters and its
+/// non-verbose flag when merged.
+#[kani::proof]
+#[kani::unwind(11)]
+fn c10_merge_ecu_only_part() {
+    let c: [[u32; 8]; 2] = kani::any();
+    let d: [[u32; 8]; 2] = kani::any();
+    let nva: bool = kani::any();
+    let mut a = info(Vec::new(), Vec::new(), table(1, &c), nva);
+    a.merge(info(Vec::new(), Vec::new(), table(1, &d), true));
+    let e0 = lookup(&a.ecu_ids, 0);
+    let mut i = 0;
+    while i < 8 {
+        assert!(e0[i] == c[0][i] as usize + d[0][i] as usize, "ECU counters of a part without app/context ids lost");
+        i += 1;
+    }
+    assert!(a.ecu_ids.len() == 1 && a.app_ids.is_empty() && a.context_ids.is_empty());
+    assert!(a.contained_non_verbose, "non-verbose flag of a part without app/context ids lost");
+    kani::cover!(true);
+    std::mem::forget(a);
+}
